@@ -15,7 +15,8 @@ FALLBACK = ("def mkdirExistOk : Bool := true\ndef retryIncrementsCounter : Bool 
             "def skippingWriters : List String := []\ndef refusingWriters : List String := []\n"
             "def overwritingWriters : List String := []\ndef saveToFilesOverwrites : Bool := true\n"
             "def runNumberPlusOne : Bool := false\ndef plainNameParts : List String := []\n"
-            "def suffixedNameParts : List String := []")
+            "def suffixedNameParts : List String := []\n"
+            "def autoNumberSortsNumbers : Bool := false")
 
 
 def _kw(call: ast.Call, name: str):
@@ -83,6 +84,14 @@ def gen() -> str:
     f = find_func(mod_u, "apply_run_number")
     if f is not None:
         plus_one = any(isinstance(n, ast.BinOp) and isinstance(n.op, ast.Add) and ast.unparse(n) == "run_number + 1" for n in ast.walk(f))
+    # automatic numbering: `sorted(get_number(d) for d in dir_list)` — the *numbers* are sorted, not the names
+    sorts_numbers = False
+    if f is not None:
+        for n in ast.walk(f):
+            if isinstance(n, ast.Call) and getattr(n.func, "id", None) == "sorted" and n.args:
+                a0 = n.args[0]
+                if isinstance(a0, (ast.GeneratorExp, ast.ListComp)) and isinstance(a0.elt, ast.Call) and getattr(a0.elt.func, "id", None) == "get_number":
+                    sorts_numbers = True
     plain, suffixed = [], []
     cls = find_class(mod_o, "Outputs")
     f = find_func(cls, "build_filenames")
@@ -103,5 +112,6 @@ def gen() -> str:
         f"def saveToFilesOverwrites : Bool := {lbool(stf_over)}\n"
         f"def runNumberPlusOne : Bool := {lbool(plus_one)}\n"
         f"def plainNameParts : List String := {llist(plain)}\n"
-        f"def suffixedNameParts : List String := {llist(suffixed)}"
+        f"def suffixedNameParts : List String := {llist(suffixed)}\n"
+        f"def autoNumberSortsNumbers : Bool := {lbool(sorts_numbers)}"
     )
